@@ -43,6 +43,8 @@ META = dict(
                'invisible here; zoo and edit menu are hand-written',
 )
 
+DEEP_NAMES = ('r_member', 'r_import_type', 'm_two', 'm_full', 'm_bound', 'm_member', 'file_mod_and_routine',
+              'file_two_modules')
 _CFG = {}
 _REF = {}
 _MENU = {}
@@ -364,7 +366,6 @@ def run(ctx):
         _REF.clear()
         _MENU.clear()
         ctx.reset_pool()
-        seen_changed = [0]
         res = bfs_levels(ctx, expand, d + 1, ('root',))
         return res
 
@@ -376,7 +377,7 @@ def run(ctx):
     capped = res['capped']
     if not ctx.quick:
         # depth 3 on the structurally richest targets (whole modules / routines with members / files)
-        rich = [t for t in targets if not t['enrich'] and t['name'] in unitzoo.QUICK_NAMES and len(t['path']) <= 1]
+        rich = [t for t in targets if not t['enrich'] and t['name'] in DEEP_NAMES and len(t['path']) <= 1]
         res3 = explore(rich, 3)
         viols += res3['violations']
         total['states'] += res3['states'] - 1
